@@ -1066,6 +1066,31 @@ class _RaggedCat(Op):
         return numpy.concatenate(parts)
 
 
+@op('raggedrange')
+class _RaggedRange(Op):
+    '''float(Range(N)) where the LENGTH N is the result of a loop (total length of a variable-size concatenation over the operand):
+    the value does not come out of a loop, but every array of this shape can only be allocated after that loop has run'''
+
+    def params(self, t):
+        shape, k = t
+        return [('r', shape[0])] if len(shape) == 1 and k == 'f' and shape[0] >= 2 else []
+
+    def ty(self, p, t):
+        shape, k = t
+        if len(shape) != 1 or k != 'f' or shape[0] < p[1]:
+            raise IllTyped
+        return (p[1] * (p[1] + 1) // 2,), 'f'
+
+    def build(self, ev, p, x):
+        name, n = p
+        i = ev.loop_index(name, ev.constant(n))
+        cat = ev.loop_concatenate(ev.Take(x, ev.Range(i + ev.constant(1))), i)
+        return ev.astype(ev.Range(cat.shape[0]), float)
+
+    def ref(self, p, v):
+        return numpy.arange(p[1] * (p[1] + 1) // 2, dtype=float)
+
+
 @op('raggedsum')
 class _RaggedSum(Op):
     '''loop_sum over l<n of an Inflate whose block size depends on l (the element-loop pattern of assembly):
